@@ -1,36 +1,53 @@
 (* C02 - Exact-match, prefix and range lookups return exactly the matching entries.
-   FULL STATEMENT: C02_statement (lookups on the model reader = filters of the sorted
-   entry list).  PROVED so far: inside a block, the search leaves the iterator on the
-   first entry >= the query key from any state (T03a, restated) and the three bound
-   tests are exactly equality / prefix / <= key1 (T02_bounds).  NOT yet proved: the
-   index-level step (first index entry with separator >= query, move to the next
-   block when the block has no entry >= query).  Engine rd compares implementation,
-   model and the filter specification on every stored key, neighbour, proper prefix,
-   one-byte extension, every separator and its neighbours, the empty key and
-   reversed ranges. *)
+   PROVED (T02_lookups): for every table that satisfies table_ok (see ReaderProofs:
+   well-formed index and data blocks, index values = the offsets get_block loads,
+   separators between the last key of a block and the first key of the next), every
+   query key / prefix / range: reader_get, reader_get_prefix and reader_get_range of the
+   reader model return NULL exactly when nothing matches, and otherwise an iterator
+   whose successive nexts return exactly
+        filter (key = k0 | k0 is a prefix of key | k0 <= key <= k1) (all entries)
+   in the order of the table (strictly ascending: T03d).  Nothing is assumed about where
+   the query falls (between blocks, before the first key, after the last key, empty
+   key or prefix, k0 > k1).  T02_bounds restates the three stop tests as relations.
+   That writer output satisfies table_ok is C01/C09; the tie of the reader model to
+   reader.c is engine rd, which compares implementation, model and the filter on every
+   stored key, neighbour, proper prefix, one-byte extension, every separator and its
+   neighbours, the empty key and reversed ranges. *)
 From Coq Require Import NArith List Lia.
-From Mtbl Require Import model.Bytes model.Order spec.Parse model.Reader proofs.OrderProofs proofs.BlockProofs.
+From Mtbl Require Import model.Bytes model.Order spec.Parse model.Reader proofs.OrderProofs proofs.BlockProofs proofs.LookupProofs proofs.ReaderProofs.
 Local Open Scope N_scope.
 
-Section C02.
-Variable decompress : N -> bytes -> res bytes.
-Definition lookup_spec (kind : ikind) (k0 k1 : bytes) (es : list entry) : list entry :=
-  filter (fun e => match kind with
-                   | KIter => true
-                   | KGet => beq (fst e) k0
-                   | KPrefix => is_prefix k0 (fst e)
-                   | KRange => ble k0 (fst e) && ble (fst e) k1
-                   end) es.
-Definition C02_statement : Prop :=
-  forall f r es, fst (reader_open f false) = Ok (Some r) ->
-    read_all decompress (S (length es)) f = Ok es ->
-    forall kind k0 k1,
-      match reader_iter_init decompress r kind k0 (match kind with KRange => k1 | _ => k0 end) with
-      | Ok (Some it) => drain decompress (S (length es)) r it = Ok (lookup_spec kind k0 k1 es)
-      | Ok None => lookup_spec kind k0 k1 es = []
-      | _ => False
-      end.
-End C02.
+Theorem T02_lookups : forall decompress r ib iridx nb B Rr,
+  table_ok decompress r ib iridx nb B Rr ->
+  forall kind k0 k1 fuel, kind <> KIter -> (total nb B < fuel)%nat ->
+  match reader_iter_init decompress r kind k0 (match kind with KRange => k1 | _ => k0 end) with
+  | Ok (Some it) =>
+      drain decompress fuel r it = Ok (filter (fun e => lookup_pred kind k0 k1 (fst e)) (table_entries_of nb B))
+  | Ok None => filter (fun e => lookup_pred kind k0 k1 (fst e)) (table_entries_of nb B) = []
+  | _ => False
+  end.
+Proof. exact table_lookup. Qed.
+Print Assumptions T02_lookups.
+
+(* the predicate of the filter, spelled out *)
+Theorem T02_pred : forall k0 k1 key,
+  (lookup_pred KGet k0 k1 key = true <-> key = k0) /\
+  (lookup_pred KPrefix k0 k1 key = true <-> exists s, key = k0 ++ s) /\
+  (lookup_pred KRange k0 k1 key = true <-> bcmp k0 key <> Gt /\ bcmp key k1 <> Gt).
+Proof.
+  intros k0 k1 key. unfold lookup_pred, beq, ble. repeat split.
+  - destruct (bcmp key k0) eqn:E; try discriminate. intros _. apply bcmp_eq, E.
+  - intros ->. rewrite bcmp_refl. reflexivity.
+  - revert key. induction k0 as [|x p IH]; intros k; cbn [is_prefix].
+    + intros _; exists k; reflexivity.
+    + destruct k as [|y k]; [discriminate|]. rewrite Bool.andb_true_iff. intros [E H].
+      apply N.eqb_eq in E. subst. destruct (IH k H) as [s ->]. exists s. reflexivity.
+  - intros [s ->]. clear. induction k0 as [|x p IH]; [reflexivity|]. cbn. rewrite N.eqb_refl. exact IH.
+  - destruct (bcmp k0 key); [discriminate|discriminate|]. cbn in H. discriminate.
+  - destruct (bcmp k0 key); cbn in H; [| |discriminate]; destruct (bcmp key k1); congruence.
+  - intros [H1 H2]. destruct (bcmp k0 key); [| |congruence]; destruct (bcmp key k1); cbn; congruence.
+Qed.
+Print Assumptions T02_pred.
 
 Theorem T02_block_search_partial : forall b ridx, wfb b ridx -> forall s q, st_ok b ridx s ->
   exists s', block_seek b s q = Ok s' /\ positioned b ridx s' q.
